@@ -193,6 +193,9 @@ impl Check for C09 {
     fn assumptions(&self) -> Vec<String> {
         vec!["the inline/subtree classification used for the non-triviality rule is a size estimate from the model, not read from the file (C10's decoder checks the actual encoding)".into()]
     }
+    fn fuzz_runs(&self) -> u64 {
+        400_000
+    }
     fn plan(&self, tier: Tier) -> Plan {
         Plan { cases: tier.pick(30_000, 800_000), max_recs: 120, max_shrink_iters: 4000, workers: 16 }
     }
